@@ -562,16 +562,23 @@ func makeOverlay(goroot string) string {
 		}
 		return string(b)
 	}
-	sel, rnd, tim := read("runtime/select.go"), read("runtime/rand.go"), read("runtime/time.go")
+	sel, rnd, tim, prc := read("runtime/select.go"), read("runtime/rand.go"), read("runtime/time.go"), read("runtime/proc.go")
 	const selOld = "j := cheaprandn(uint32(norder + 1))"
 	const initOld = "\tglobalRand.state.Init(*seed)\n"
 	const randOld = "func rand() uint64 {\n"
 	// timers of a bubble that expire at the same instant are ordered by a per-timer random
 	// value, deliberately (go1.25+); it comes from the seeded stream too
 	const timOld = "\t\t\tt.rand = cheaprand()\n"
-	if strings.Count(sel, selOld) != 1 || strings.Count(rnd, initOld) != 1 || strings.Count(rnd, randOld) != 1 || strings.Count(tim, timOld) != 1 {
+	// the 10 ms time slice after which sysmon asks the running goroutine (or a chain of
+	// goroutines handing over through runnext) to yield: with it, the order in which the
+	// goroutines woken by one controller step run depends on how long the step takes - on the
+	// load of the machine.  The worker has one P and the controller waits for quiescence
+	// anyway, so the slice is made practically infinite there.
+	const prcOld = "const forcePreemptNS = 10 * 1000 * 1000 // 10ms"
+	if strings.Count(sel, selOld) != 1 || strings.Count(rnd, initOld) != 1 || strings.Count(rnd, randOld) != 1 || strings.Count(tim, timOld) != 1 || strings.Count(prc, prcOld) != 1 {
 		return ""
 	}
+	prc = strings.Replace(prc, prcOld, "const forcePreemptNS = 1 << 62 // /verif: no time-sliced preemption in the simulation worker", 1)
 	tim = strings.Replace(tim, timOld, "\t\t\tt.rand = verifTimerRand()\n", 1)
 	sel = strings.Replace(sel, selOld, "j := verifSelectRandn(uint32(norder + 1))", 1)
 	rnd = strings.Replace(rnd, initOld, "\tfor i := range seed {\n\t\tseed[i] = byte(i*37 + 11)\n\t}\n"+initOld, 1)
@@ -616,16 +623,18 @@ func verifSelectRandn(n uint32) uint32 {
 	return cheaprandn(n)
 }
 `
-	sum := sha256.Sum256([]byte(sel + rnd + tim))
+	sum := sha256.Sum256([]byte(sel + rnd + tim + prc))
 	dir := filepath.Join(scratchRoot(), "overlay-"+hex.EncodeToString(sum[:6]))
 	os.MkdirAll(dir, 0o755)
 	os.WriteFile(filepath.Join(dir, "select.go"), []byte(sel), 0o644)
 	os.WriteFile(filepath.Join(dir, "rand.go"), []byte(rnd), 0o644)
 	os.WriteFile(filepath.Join(dir, "time.go"), []byte(tim), 0o644)
-	ov := fmt.Sprintf(`{"Replace": {%q: %q, %q: %q, %q: %q}}`,
+	os.WriteFile(filepath.Join(dir, "proc.go"), []byte(prc), 0o644)
+	ov := fmt.Sprintf(`{"Replace": {%q: %q, %q: %q, %q: %q, %q: %q}}`,
 		filepath.Join(goroot, "src", "runtime/select.go"), filepath.Join(dir, "select.go"),
 		filepath.Join(goroot, "src", "runtime/rand.go"), filepath.Join(dir, "rand.go"),
-		filepath.Join(goroot, "src", "runtime/time.go"), filepath.Join(dir, "time.go"))
+		filepath.Join(goroot, "src", "runtime/time.go"), filepath.Join(dir, "time.go"),
+		filepath.Join(goroot, "src", "runtime/proc.go"), filepath.Join(dir, "proc.go"))
 	path := filepath.Join(dir, "overlay.json")
 	os.WriteFile(path, []byte(ov), 0o644)
 	return path
